@@ -488,6 +488,35 @@ func init() {
 					}
 				}
 			}
+			// re-embedding through negative indices: an earlier path updates below an array element, a later path
+			// addresses that element itself counting from the end and its update function keeps what it was given more
+			// than once, a still later path updates below it again
+			{
+				elems := []string{".[-1]", ".[-2]", ".a[-1]", ".[-1][-1]", ".[-1:][0]", ".[-1].b", ".[0]", ".a[0]"}
+				belows := []string{".[-1].b.c", ".[0].b.c", ".[-1].b", ".[-1].d[0]", ".[-1].d[-1]", ".[-2].b.c", ".a[-1].b.c", ".a[0].b.c", ".[-1][-1].b.c", ".[-1].b.c, .[-1].d[-1]", ".[1].b.c"}
+				embed := []string{"if type == \"number\" then . + 1 else {b: .b, y: .b} end", "if type == \"number\" then . + 1 else [., .] end", "if type == \"number\" then . + 1 else . as $o | {b: $o.b, y: $o, d: $o.d} end",
+					"if type == \"number\" then . + 1 elif type == \"array\" then [.[-1], .[-1], .] else {b: .b, d: .d, y: [.b, .d]} end", "if type == \"number\" then . + 1 else (.y = .b | .z = .) end", "if type == \"number\" then . + 1 else with_entries(.) + {y: .b} end"}
+				ins := []any{
+					[]any{map[string]any{"b": map[string]any{"c": 1}, "d": []any{1, 2}}},
+					[]any{0, map[string]any{"b": map[string]any{"c": 1}, "d": []any{1, 2}}},
+					map[string]any{"a": []any{map[string]any{"b": map[string]any{"c": 1}, "d": []any{5}}}},
+					[]any{map[string]any{"b": map[string]any{"c": 1}, "d": []any{3}}, []any{0, map[string]any{"b": map[string]any{"c": 2}, "d": []any{1, 2}}}},
+					[]any{map[string]any{"b": map[string]any{"c": 1}, "d": []any{1}}, map[string]any{"b": map[string]any{"c": 7}, "d": []any{8, 9}}},
+				}
+				for ei, pe := range elems {
+					for bi, pb := range belows {
+						for fi, f := range embed {
+							if c.Quick() && (ei+bi+fi)%2 == 1 {
+								continue
+							}
+							for oi, p := range []string{combo(pb, pe, pb), combo(pe, pb), combo(pb, pe), combo(pb, pe, pb, pe, pb)} {
+								in := ins[(ei+bi+fi+oi)%len(ins)]
+								kC02Pair.Do(c, c02Pair{L: p + " |= (" + f + ")", R: redModify(p, f), Input: run.TV{V: in}, What: "|=", P: ""})
+							}
+						}
+					}
+				}
+			}
 			// interleaved path expressions: a path expression with generators inside value-mode sub-expressions is
 			// suspended while its consumer runs another path expression, then resumed; the result must be what running
 			// the outer expression to completion first gives
